@@ -18,5 +18,9 @@ def serve(dispatch):
             r = dispatch(toks)
         except RecursionError:
             r = 'CRASH recursion'
+        except Exception as e:
+            # an exception the adapter did not expect from the library is an ANSWER (compared with the model and
+            # judged by the oracle), never a reason for the adapter to die: a crashed adapter yields no verdict
+            r = 'CRASH %s: %s' % (type(e).__name__, ' '.join(str(e).split())[:120])
         out.write(r + '\n')
     out.flush()
